@@ -215,6 +215,7 @@ type Result struct {
 	Events    []string       `json:"events,omitempty"`
 	Probes    map[string]int `json:"probes,omitempty"`
 	Trace     uint64         `json:"trace"`
+	ProcMode  int            `json:"procmode"`
 }
 
 type Summary struct {
@@ -479,7 +480,7 @@ func main() {
 			op := filepath.Join(tmp, fmt.Sprintf("out%d.json", i))
 			env := append(baseEnv(prop, tier, seed),
 				"VERIF_FROM="+strconv.FormatInt(from, 10), "VERIF_TO="+strconv.FormatInt(to, 10),
-				"VERIF_OUT="+op, "VERIF_PROGRESS="+wo.prog, "VERIF_WALL_S="+strconv.FormatInt(wall, 10))
+				"VERIF_OUT="+op, "VERIF_PROGRESS="+wo.prog, "VERIF_WALL_S="+strconv.FormatInt(wall, 10), "VERIF_PROCMODE="+strconv.Itoa(i%2))
 			if i == 0 {
 				env = append(env, "VERIF_TRACES=1")
 			}
@@ -511,7 +512,7 @@ func main() {
 			// a crashed worker: re-execute the world it was running, alone
 			if r := strings.TrimSpace(string(pr)); r != "" {
 				if n, err := strconv.ParseInt(r, 10, 64); err == nil {
-					if v := reproduceCrash(prop, tier, seed, bin, n, tmp); v != nil {
+					if v := reproduceCrash(prop, tier, seed, bin, n, tmp, i%2); v != nil {
 						viols = append(viols, v)
 						continue
 					}
@@ -569,7 +570,7 @@ func main() {
 			n = 48
 		}
 		op := filepath.Join(tmp, "det.json")
-		env := append(baseEnv(prop, tier, seed), "VERIF_FROM=0", "VERIF_TO="+strconv.FormatInt(n, 10), "VERIF_OUT="+op, "VERIF_TRACES=1", "GOMAXPROCS=4", "VERIF_NOMIN=1")
+		env := append(baseEnv(prop, tier, seed), "VERIF_FROM=0", "VERIF_TO="+strconv.FormatInt(n, 10), "VERIF_OUT="+op, "VERIF_TRACES=1", "GOMAXPROCS=4", "VERIF_NOMIN=1", "VERIF_PROCMODE=0")
 		if info.Race {
 			env = append(env, "GORACE=halt_on_error=0 atexit_sleep_ms=0 exitcode=0")
 		}
@@ -675,7 +676,7 @@ func main() {
 				kind = "race"
 			}
 			rf := map[string]any{"property": prop, "seed": seed, "run": v.Run, "tier": tier, "tape": v.Tape, "class": v.Violation.Class,
-				"detail": v.Violation.Detail, "events": v.Events, "tree_hash": th, "kind": kind, "minimisation": v.Probes}
+				"detail": v.Violation.Detail, "events": v.Events, "tree_hash": th, "kind": kind, "minimisation": v.Probes, "procmode": v.ProcMode}
 			b, _ := json.MarshalIndent(rf, "", " ")
 			os.WriteFile(rp, append(b, '\n'), 0o644)
 			fmt.Printf("violation class: %s\n  %s\n", v.Violation.Class, firstLines(v.Violation.Detail, 12))
@@ -715,10 +716,10 @@ func firstLines(s string, n int) string {
 // reproduceCrash re-executes one world alone after a worker death. A reproducible death is
 // a violation of class "crash"; scenarios whose property does not forbid crashes turn it
 // into a harness error themselves (they never die).
-func reproduceCrash(prop, tier string, seed int64, bin string, runIdx int64, tmp string) *Result {
+func reproduceCrash(prop, tier string, seed int64, bin string, runIdx int64, tmp string, procMode int) *Result {
 	op := filepath.Join(tmp, "crash.json")
 	os.Remove(op)
-	env := append(baseEnv(prop, tier, seed), "VERIF_FROM="+strconv.FormatInt(runIdx, 10), "VERIF_TO="+strconv.FormatInt(runIdx+1, 10), "VERIF_OUT="+op, "VERIF_NOMIN=1")
+	env := append(baseEnv(prop, tier, seed), "VERIF_FROM="+strconv.FormatInt(runIdx, 10), "VERIF_TO="+strconv.FormatInt(runIdx+1, 10), "VERIF_OUT="+op, "VERIF_NOMIN=1", "VERIF_PROCMODE="+strconv.Itoa(procMode))
 	stderr, err := startWorker(bin, env, op)
 	if _, e := os.Stat(op); e == nil {
 		return nil // did not reproduce
@@ -730,7 +731,7 @@ func reproduceCrash(prop, tier string, seed int64, bin string, runIdx int64, tmp
 			break
 		}
 	}
-	return &Result{Prop: prop, Run: runIdx, Violation: &Violation{Class: cls, Detail: fmt.Sprintf("%v\n%s", err, tail(stderr, 3000))}}
+	return &Result{Prop: prop, Run: runIdx, ProcMode: procMode, Violation: &Violation{Class: cls, Detail: fmt.Sprintf("%v\n%s", err, tail(stderr, 3000))}}
 }
 
 func replay(prop, bin, binPlain string, info Info, file string, seed int64) int {
@@ -746,6 +747,7 @@ func replay(prop, bin, binPlain string, info Info, file string, seed int64) int 
 		Tape     []uint32 `json:"tape"`
 		Class    string   `json:"class"`
 		Kind     string   `json:"kind"`
+		ProcMode int      `json:"procmode"`
 	}
 	if err := json.Unmarshal(b, &rf); err != nil {
 		die(2, "replay: %v", err)
@@ -756,7 +758,7 @@ func replay(prop, bin, binPlain string, info Info, file string, seed int64) int 
 	tmp, _ := os.MkdirTemp("", "verif-replay-")
 	defer os.RemoveAll(tmp)
 	op := filepath.Join(tmp, "out.json")
-	env := append(baseEnv(prop, rf.Tier, rf.Seed), "VERIF_OUT="+op)
+	env := append(baseEnv(prop, rf.Tier, rf.Seed), "VERIF_OUT="+op, "VERIF_PROCMODE="+strconv.Itoa(rf.ProcMode))
 	if len(rf.Tape) > 0 {
 		env = append(env, "VERIF_TAPE="+file)
 	} else {
